@@ -1298,7 +1298,10 @@ impl Translator {
                     .statics
                     .get_iface_impl_for_type(&impl_ty.key(), iface)
                     .unwrap();
-                let method = &imp.methods[*method_index];
+                // the implementation may list its methods in another order than the interface
+                let method = &imp
+                    .get_method_by_name(&iface.methods[*method_index].name.v)
+                    .unwrap();
                 let desc = FuncDesc {
                     kind: FuncKind::NamedFunc(method.clone()),
                     overload_ty: Some(overloaded_func_ty.clone()),
@@ -1444,7 +1447,10 @@ impl Translator {
             .statics
             .get_iface_impl_for_type(&impl_ty.key(), iface_def)
             .unwrap();
-        let method = &imp.methods[method_index as usize];
+        // the implementation may list its methods in another order than the interface
+        let method = &imp
+            .get_method_by_name(&iface_def.methods[method_index as usize].name.v)
+            .unwrap();
         let fqn = &self.statics.fully_qualified_names[&method.name.id];
         self.handle_func_call(st, mono, Some(overloaded_func_ty.clone()), fqn, method);
     }
